@@ -443,6 +443,10 @@ def _float(t, top=False):
                 r = inner[2][0]                 # Ok(x)? is x
                 if not effs:
                     return r
+            elif k == "try" and inner[0] == "if" and _tail_ok(inner):
+                r = _mk_try(inner)
+                if not effs:
+                    return r
             elif k == "try" and inner[0] == "call" and inner[1] == "then" and len(inner[2]) == 2:
                 effs.append(("earlymark", [(_not(inner[2][0]), ("ret", _NONE))]))       # c.then(|| v)?  ==  if !c { return None }  v
                 r = inner[2][1]
@@ -523,6 +527,19 @@ def _not(c):
     if c[0] == "op" and c[1] in ("&&", "||") and len(c[2]) == 2:
         return ("op", "||" if c[1] == "&&" else "&&", [_not(c[2][0]), _not(c[2][1])])      # De Morgan
     return ("op", "Not", [c])
+
+
+def _mk_try(x):
+    """Ok(a)? is a;  (if c { Ok(a) } else { y })?  is  if c { a } else { y? }"""
+    if x[0] == "call" and x[1] in ("Ok", "Some") and len(x[2]) == 1:
+        return x[2][0]
+    if x[0] == "if" and (_tail_ok(x[2]) or _tail_ok(x[3])):
+        return ("if", x[1], _mk_try(x[2]), _mk_try(x[3]))
+    return ("try", x)
+
+
+def _tail_ok(x):
+    return (x[0] == "call" and x[1] in ("Ok", "Some") and len(x[2]) == 1) or (x[0] == "if" and (_tail_ok(x[2]) or _tail_ok(x[3])))
 
 
 def _mk_ok(x):
